@@ -20,6 +20,11 @@ namespace {
   struct Derived : Base {
     int d = 2;
   };
+  /// a class that takes part in no conversion at all, with a data member exposed through fun(&Plain::value)
+  struct Plain {
+    int value = 77;
+    int pad[6] = {0, 0, 0, 0, 0, 0};
+  };
 
   int g_entered = -1;
   int g_count = 0;
@@ -112,6 +117,12 @@ namespace {
       c.add(Boxed_Value(std::shared_ptr<const Base>(std::make_shared<Derived>())), "cbasd");        // const Base, really a Derived
       c.add(Boxed_Value(std::shared_ptr<Base>(std::make_shared<Derived>())), "basd");              // Base, really a Derived
       c.add(Boxed_Value(std::cref(refb)), "cbref");                                                 // const Base by reference
+      c.add(user_type<Plain>(), "Plain");
+      c.add(fun(&Plain::value), "value");
+      c.add(fun(&Base::b), "bmember");
+      c.add(var(Plain()), "pobj");
+      c.add(const_var(Plain()), "cpobj");
+      c.eval("var fobj = fun() { 1 }");
     }
   };
 
@@ -235,6 +246,29 @@ int main(int argc, char **argv) {
       std::fputs(cast_row<const Derived *>(c, "cDerived*", a, [](const Derived *d) { return "obj:" + dyn(*d) + (typeid(*d) == typeid(Derived) ? "" : ":MISTYPED"); }).c_str(), rows);
       std::fputs(cast_row<std::shared_ptr<Base>>(c, "spBase", a, [](std::shared_ptr<Base> b) { return "obj:" + dyn(*b); }).c_str(), rows);
       std::fputs(cast_row<std::shared_ptr<const Derived>>(c, "spcDerived", a, [](std::shared_ptr<const Derived> d) { return "obj:" + dyn(*d) + (typeid(*d) == typeid(Derived) ? "" : ":MISTYPED"); }).c_str(), rows);
+    }
+  }
+  // data members exposed as functions: the receiver must be an object of the member's class (or convert to it), whatever the route
+  {
+    const std::vector<std::pair<std::string, std::string>> margs = {{"Pobj", "pobj"}, {"cPobj", "cpobj"}, {"ivar", "iv"}, {"ilit", "12345"}, {"svar", "sv"}, {"slit", "\"hello world\""},
+        {"dvar", "dv"}, {"Dobj", "dobj"}, {"Bobj", "bobj"}, {"fn", "fobj"}, {"undef", "un"}, {"bvar", "bv"}};
+    for (const char *member : {"value", "bmember"}) {
+      for (const auto &a : margs) {
+        for (const char *route : {"call", "dot", "fnvalue", "bind"}) {
+          Fixture fx;
+          const std::string m = member, r = route, x = a.second;
+          const std::string src = r == "call" ? m + "(" + x + ")" : r == "dot" ? x + "." + m : r == "fnvalue" ? "var acc = " + m + "; acc(" + x + ")" : "bind(" + m + ", _)(" + x + ")";
+          std::string oc = "ok", got;
+          try {
+            got = std::to_string(fx.chai->eval<int>(src));
+          } catch (const exception::eval_error &) {
+            oc = "ee";
+          } catch (const std::exception &) {
+            oc = "ex";
+          }
+          std::fprintf(rows, "{\"k\":\"m\",\"member\":%s,\"arg\":%s,\"route\":%s,\"oc\":%s,\"got\":%s}\n", jstr(m).c_str(), jstr(a.first).c_str(), jstr(r).c_str(), jstr(oc).c_str(), jstr(got).c_str());
+        }
+      }
     }
   }
   // an exception of a type the dispatch loop swallows, thrown from INSIDE an entered function
